@@ -143,6 +143,8 @@ package tls
 //   keyshare_listed  every group of every key_share extension is listed in every supported_groups extension
 //   pq_has_share     a supported_groups list with X25519MLKEM768 implies TLS 1.3 (pqTLS13), TLS 1.3 implies a key_share
 //                    extension (ksPresent), and every key_share extension then has a share for that group (pqShare)
+//   groups_known     every listed group is X25519MLKEM768, X25519, P-256, P-384 or P-521: X25519MLKEM768 is the only
+//                    hybrid post-quantum group that can be listed, so pq_has_share covers "every hybrid group"
 //   alps_needs_alpn  an application_settings extension only together with an ALPN extension
 //   tls13_padding    TLS 1.3 implies a padding extension
 //   tls13_versions   TLS 1.3 implies a supported_versions extension (svPresent); every supported_versions extension
@@ -202,6 +204,7 @@ package tls
 //@ spec scOf(e) = e.(*SupportedCurvesExtension).Curves
 //@ spec svOf(e) = e.(*SupportedVersionsExtension).Versions
 //@ spec alpnOf(e) = e.(*ALPNExtension).AlpnProtocols
+//@ spec knownGroup(g) = g == X25519MLKEM768 || g == X25519 || g == CurveP256 || g == CurveP384 || g == CurveP521
 //@ spec hasCurve(cs, g) = exists c in 0..len(cs): cs[c] == g
 //@ spec hasShare(ks, g) = exists k in 0..len(ks): ks[k].Group == g
 
@@ -217,11 +220,12 @@ package tls
 //@ spec svMatch(x, vmin, vmax) = forall a in 0..len(x): isSV(x[a]) ==> svGood(svOf(x[a]), vmin, vmax)
 //@ spec alpnNonEmpty(x) = forall a in 0..len(x): isALPN(x[a]) ==> len(alpnOf(x[a])) >= 1
 //@ spec tls13Only(x, vmax) = forall a in 0..len(x): isKS(x[a]) || isSV(x[a]) || isALPS(x[a]) || isPSKModes(x[a]) ==> vmax == VersionTLS13
+//@ spec groupsKnown(x) = forall b in 0..len(x): isSC(x[b]) ==> forall c in 0..len(scOf(x[b])): knownGroup(scOf(x[b])[c])
 //@ spec norc4If13(s, vmax) = vmax == VersionTLS13 ==> forall j in 0..len(s): !isRC4(s[j])
 
 // stepping stones
 // curvesGood: the shape of the supported_groups list [X25519MLKEM768]? [X25519]? P256 P384 [P521]?
-//@ spec curvesGood(cs, vmax) = 2 <= len(cs) && len(cs) <= 5 && (cs[len(cs)-2] == CurveP256 || (len(cs) >= 3 && cs[len(cs)-3] == CurveP256)) && (vmax == VersionTLS13 ==> (len(cs) >= 3 && cs[len(cs)-3] == X25519) || (len(cs) >= 4 && cs[len(cs)-4] == X25519)) && (cs[0] == X25519MLKEM768 ==> vmax == VersionTLS13) && (forall j in 1..len(cs): cs[j] != X25519MLKEM768)
+//@ spec curvesGood(cs, vmax) = 2 <= len(cs) && len(cs) <= 5 && (cs[len(cs)-2] == CurveP256 || (len(cs) >= 3 && cs[len(cs)-3] == CurveP256)) && (vmax == VersionTLS13 ==> (len(cs) >= 3 && cs[len(cs)-3] == X25519) || (len(cs) >= 4 && cs[len(cs)-4] == X25519)) && (cs[0] == X25519MLKEM768 ==> vmax == VersionTLS13) && (forall j in 1..len(cs): cs[j] != X25519MLKEM768) && (forall j in 0..len(cs): knownGroup(cs[j]))
 // ksGood: every share's group is listed in cs, and a listed hybrid group has its share (the first one)
 //@ spec ksGood(K, cs) = 1 <= len(K) && (forall i in 0..len(K): hasCurve(cs, K[i].Group)) && (forall c in 0..len(cs): cs[c] == X25519MLKEM768 ==> K[0].Group == X25519MLKEM768)
 // an element of the list before the TLS 1.3 block (sc: the element at position 4)
@@ -260,6 +264,7 @@ package tls
 //@   ensures alpn_nonempty: ret1 == nil ==> alpnNonEmpty(ret0.Extensions)
 //@   ensures tls13_only: ret1 == nil ==> tls13Only(ret0.Extensions, ret0.TLSVersMax)
 //@   ensures tls13_versions: ret1 == nil ==> svPresent(ret0.Extensions, ret0.TLSVersMax) && svMatch(ret0.Extensions, ret0.TLSVersMin, ret0.TLSVersMax)
+//@   ensures groups_known: ret1 == nil ==> groupsKnown(ret0.Extensions)
 //@   ensures pq_has_share: ret1 == nil ==> pqShare(ret0.Extensions) && pqTLS13(ret0.Extensions, ret0.TLSVersMax) && ksPresent(ret0.Extensions, ret0.TLSVersMax)
 //@   ensures keyshare_listed: ret1 == nil ==> ksListed(ret0.Extensions)
 //@   at after call removeRandomCiphers#0: assert n0: norc4If13(res, p.TLSVersMax)
@@ -322,6 +327,7 @@ package tls
 //@   requires inv_alpn_nonempty: alpnNonEmpty(p.Extensions)
 //@   requires inv_tls13_only: tls13Only(p.Extensions, p.TLSVersMax)
 //@   requires inv_tls13_versions: svPresent(p.Extensions, p.TLSVersMax) && svMatch(p.Extensions, p.TLSVersMin, p.TLSVersMax)
+//@   requires inv_groups_known: groupsKnown(p.Extensions)
 //@   requires inv_pq_has_share: pqShare(p.Extensions) && pqTLS13(p.Extensions, p.TLSVersMax) && ksPresent(p.Extensions, p.TLSVersMax)
 //@   requires inv_keyshare_listed: ksListed(p.Extensions)
 //@   modifies p.Extensions[0..len(p.Extensions)]
@@ -333,6 +339,7 @@ package tls
 //@   ensures inv_alpn_nonempty: alpnNonEmpty(p.Extensions)
 //@   ensures inv_tls13_only: tls13Only(p.Extensions, p.TLSVersMax)
 //@   ensures inv_tls13_versions: svPresent(p.Extensions, p.TLSVersMax) && svMatch(p.Extensions, p.TLSVersMin, p.TLSVersMax)
+//@   ensures inv_groups_known: groupsKnown(p.Extensions)
 //@   ensures inv_pq_has_share: pqShare(p.Extensions) && pqTLS13(p.Extensions, p.TLSVersMax) && ksPresent(p.Extensions, p.TLSVersMax)
 //@   ensures inv_keyshare_listed: ksListed(p.Extensions)
 
